@@ -7,10 +7,14 @@ further assumption about the driver, an instance of `cross_protocol_char_plain` 
 import VaxisModel.Props.C09Uni
 import VaxisModel.Driver.C09
 import VaxisModel.Spec.KeyEvent
+import VaxisModel.Lemmas.KeyCongr
+import VaxisModel.Lemmas.KeySelf
 
 namespace VaxisModel.Props.C09Driver
 open VaxisModel.Model.Key VaxisModel.Spec.KeyEnc VaxisModel.Spec.KeyEncUni VaxisModel.Gen.Keys
-open VaxisModel.Driver.C09 (URow mkUni findRow upperHasLowerBad)
+open VaxisModel.Driver.C09 (URow mkUni findRow upperHasLowerBad agreeOnKeysBad asciiAgreeOn)
+open VaxisModel.Lemmas.KeyCongr (AgreeAt AgreeOnKeys)
+open VaxisModel.Lemmas.KeySelf (AsciiAgree)
 
 theorem findRow_none (t : List URow) (r : Int) (h : r ∉ t.map (·.r)) : findRow t r = none := by
   unfold findRow
@@ -68,5 +72,73 @@ theorem driver_uni_upper_has_lower (t : List URow) (folds : List (Int × Int)) (
         exact hnot ⟨hmem, by simp [hflag, hup, hU, heq]⟩
       simp only []
       rw [← hUr]; exact hlo
+
+/-- **driver_uni_agree_on_keys.** The `hypk` op: when the driver's evaluation finds no differing rune, the oracle it
+    builds from the rows satisfies `AgreeOnKeys` — at the 128 ASCII runes and the listed rows because they were compared,
+    at every unlisted rune above `MaxRune` because the driver's defaults (no class, identity case maps) are what
+    `asciiUni` says there.  So `hypk … ok` discharges the hypothesis of `cross_protocol_any_uni` / `key_roundtrip_any_uni`
+    for the driver's oracle. -/
+theorem driver_uni_agree_on_keys (t : List URow) (folds : List (Int × Int)) (h : agreeOnKeysBad t = []) :
+    AgreeOnKeys (mkUni t folds) := by
+  intro r hr
+  -- the class predicates and case maps of `mkUni` do not depend on the fold pairs
+  have e : ∀ x, ((mkUni t folds).isUpper x = (mkUni t []).isUpper x) ∧ ((mkUni t folds).isLower x = (mkUni t []).isLower x) ∧
+      ((mkUni t folds).isLetter x = (mkUni t []).isLetter x) ∧ ((mkUni t folds).isGraphic x = (mkUni t []).isGraphic x) ∧
+      ((mkUni t folds).isPrint x = (mkUni t []).isPrint x) ∧ ((mkUni t folds).toUpper x = (mkUni t []).toUpper x) ∧
+      ((mkUni t folds).toLower x = (mkUni t []).toLower x) := fun x => ⟨rfl, rfl, rfl, rfl, rfl, rfl, rfl⟩
+  obtain ⟨e1, e2, e3, e4, e5, e6, e7⟩ := e r
+  by_cases hmem : r ∈ ((List.range 128).map fun (n : Nat) => ((n : Nat) : Int)) ++ t.map (·.r)
+  · -- evaluated: not in the bad list
+    have hnot : r ∉ agreeOnKeysBad t := by rw [h]; simp
+    have hc : ¬ ((inKeyDom r && !((mkUni t []).isUpper r == asciiUni.isUpper r && (mkUni t []).isLower r == asciiUni.isLower r &&
+        (mkUni t []).isLetter r == asciiUni.isLetter r && (mkUni t []).isGraphic r == asciiUni.isGraphic r &&
+        (mkUni t []).isPrint r == asciiUni.isPrint r && (mkUni t []).toUpper r == asciiUni.toUpper r &&
+        (mkUni t []).toLower r == asciiUni.toLower r)) = true) := fun hc =>
+      hnot (by unfold agreeOnKeysBad; exact List.mem_filter.mpr ⟨hmem, hc⟩)
+    simp only [hr, Bool.true_and, Bool.not_eq_true', Bool.not_eq_false] at hc
+    simp only [Bool.and_eq_true, beq_iff_eq] at hc
+    obtain ⟨⟨⟨⟨⟨⟨a1, a2⟩, a3⟩, a4⟩, a5⟩, a6⟩, a7⟩ := hc
+    exact ⟨e1.trans a1, e2.trans a2, e3.trans a3, e4.trans a4, e5.trans a5, e6.trans a6, e7.trans a7⟩
+  · -- not listed and not ASCII: above MaxRune, where both oracles have no class and identity maps
+    simp only [List.mem_append, List.mem_map, List.mem_range, not_or, not_exists, not_and] at hmem
+    obtain ⟨hascii, hrow⟩ := hmem
+    have hnone : findRow t r = none := findRow_none t r (by
+      simp only [List.mem_map, not_exists, not_and]; exact hrow)
+    have hbig : maxRune < r := by
+      simp only [inKeyDom, Bool.or_eq_true, Bool.and_eq_true, decide_eq_true_eq] at hr
+      rcases hr with ⟨h0, h1⟩ | h
+      · exact absurd (Int.toNat_of_nonneg h0) (hascii r.toNat (by omega))
+      · exact h
+    have hm : maxRune = 1114111 := rfl
+    rw [hm] at hbig
+    refine ⟨?_, ?_, ?_, ?_, ?_, ?_, ?_⟩
+    · simp only [mkUni, hnone, asciiUni]; symm; rw [decide_eq_false_iff_not]; omega
+    · simp only [mkUni, hnone, asciiUni]; symm; rw [decide_eq_false_iff_not]; omega
+    · simp only [mkUni, hnone, asciiUni]; symm; rw [decide_eq_false_iff_not]; omega
+    · simp only [mkUni, hnone, asciiUni]; symm; rw [decide_eq_false_iff_not]; omega
+    · simp only [mkUni, hnone, asciiUni]; symm; rw [decide_eq_false_iff_not]; omega
+    · simp only [mkUni, hnone, asciiUni]; split <;> omega
+    · simp only [mkUni, hnone, asciiUni]; split <;> omega
+
+/-- **driver_uni_ascii_agree.** The `hypa` op: when `asciiAgreeOn` accepts the rows and fold pairs, the driver's oracle
+    satisfies `AsciiAgree`, the hypothesis of `self_match` / `self_match_every_event`. -/
+theorem driver_uni_ascii_agree (t : List URow) (f : List (Int × Int)) (h : asciiAgreeOn t f = true) :
+    AsciiAgree (mkUni t f) := by
+  unfold asciiAgreeOn at h
+  simp only [List.all_eq_true, List.mem_range, Bool.and_eq_true, beq_iff_eq] at h
+  constructor
+  · intro r h0 h1
+    have := (h r.toNat (by omega)).1
+    have er : ((r.toNat : Nat) : Int) = r := Int.toNat_of_nonneg h0
+    rw [er] at this
+    simpa [mkUni] using this
+  · intro a b ha0 ha1 hb0 hb1
+    have := (h a.toNat (by omega)).2 b.toNat (by omega)
+    have ea : ((a.toNat : Nat) : Int) = a := Int.toNat_of_nonneg ha0
+    have eb : ((b.toNat : Nat) : Int) = b := Int.toNat_of_nonneg hb0
+    rw [ea, eb] at this
+    simp only [mkUni]
+    rw [this]
+    simp only [asciiUni, Bool.or_self]
 
 end VaxisModel.Props.C09Driver
